@@ -32,6 +32,10 @@ CLAIMS = {
  "C14": dict(cat="proof", tech="Lean 4 proof (checkpoint = encode(abstract state); idempotence; zero padding) + byte-level correspondence of checkpoints across chunkings/back ends",
    text="Kernel-checked: the checkpoint is a function of (key, bytes consumed) only, identical across chunkings and back ends; from_checkpoint(c).checkpoint()=c for produced c; bytes 128..160 are the pending bytes followed by zeros. " + CORR,
    note="Trusted: as C02. Genuine defect (stale buffer bytes) found on the pinned tree and fixed (commit 508ab49).", ref="4/C14"),
+ "C08": dict(cat="proof", tech="Lean 4 proof (Except-model of every panic point of the portable path, both profiles, induction over histories) + catch_unwind correspondence in dev and release + #[no_panic] link check of every public op",
+   text="Kernel-checked: with every slice/index/split_at/copy_from_slice check (both profiles) and every debug_assert/overflow check (debug profile) of internal.rs/portable.rs written out in Except, append, finalize64/128/256, checkpoint and from_checkpoint(ANY 164 bytes) return ok and equal the pure model under the packet invariant, which every constructor establishes and every op preserves; lifted to arbitrary histories by induction. "
+        + CORR + " Dynamic: dev (overflow-checks + debug-assertions) and release runners execute every history under catch_unwind; any `panic` output is an oracle failure. Static release claim: a release (lto=fat, 1 CGU) binary with #[no_panic] wrappers around every public operation of PortableHash/SseHash/AvxHash/HighwayHasher must link.",
+   note="Partial: the Except-model covers the portable path (the SIMD remainder slices are covered by the dev-profile runs and the link check, not by a Lean model); absence of panic edges in machine code is established by the linker experiment, not by Lean. Trusted: as C02, no-panic crate, lld.", ref="4/C08"),
  "C10": dict(cat="proof", tech="Lean 4 proof (complete case analysis of the 128-row configuration table + machine invariant by induction over histories) + tags observed in every build configuration x masked CPUID",
    text="Kernel-checked for all 128 (arch, std, target-feature, detected-feature) rows: the new-ladder picks a permitted back end, the restore-ladder picks the same, portable iff no SIMD permitted, the tag names an existing union member, SIMD constructors are Some iff std and detected; by induction over histories every HighwayHasher obtained by new/default/restore/clone carries that back end. "
         + CORR + " The oracle checks the property's RELATION (Lean `Permitted` evaluated on the observed tag), not equality with the model's choice; CPUID faulting gives the SSE-only and no-SIMD CPUs on this AVX2 host. Quick: 6 build configurations (+3 CPU masks on the std ones); thorough: all 20.",
